@@ -36,10 +36,11 @@ BOUNDS = {"data": "none: symbolic position, block and value per pinned record sh
 ASSUMPTIONS = [
     "reference model (checks/refmodel.py + the width rule ceil(log2(MaxItems))) is independent of accessor.py",
     "auxiliary side conditions are finite concrete comparisons (no solver): module attributes, key lists name items, "
-    "file name vs declared version; the FILES naming round trip is decided in C04",
+    "file name vs declared version; the FILES naming round trip (every platform x cfg x log through the real "
+    "response()/handle() and the module-name derivation) is a concrete loop shared with C04",
     "temperature items: the raw word is compared here, the value formula is decided by C14",
 ]
-SITES = ["eq.*", "mod.*", "adr.*", "key.*"]
+SITES = ["eq.*", "mod.*", "adr.*", "key.*", "rt.files*"]
 
 PINNED = os.path.join(os.path.dirname(os.path.dirname(os.path.abspath(__file__))), "pinned", "layout.json.gz")
 _P = None
@@ -284,6 +285,9 @@ def module_unit(mod):
 def units(tier):
     for key, (mod, tag, prec) in sorted(groups().items(), key=lambda kv: (kv[1][0], kv[1][1])):
         yield Unit(f"equiv.{mod}.{tag}", equiv(mod, tag, prec), max_paths=20000, ratio_floats=True)
+    from . import c04
+    # module names vs the config-file naming a spa reports: FILES round trip for all shipped combinations
+    yield Unit("files-naming", c04.m_files)
     mods = sorted(set(pinned()) | set(current_declared()))
     for mod in mods:
         yield Unit(f"module.{mod}", module_unit(mod), ratio_floats=True)
